@@ -278,6 +278,39 @@ def uses_helper_twice(a, b):
     y = _helper_clip(b, 0, 5)
     return x, y
 
+def _helper_bounds(xs, at_least=1, at_most=1):
+    out = []
+    if at_least is not None:
+        out.append(("ge", at_least, len(xs)))
+    if at_most is not None:
+        out.append(("le", at_most, len(xs)))
+    return out
+
+def uses_flag_helper_default(xs):
+    r = _helper_bounds(xs, 1)
+    return r
+
+def uses_flag_helper_none(xs):
+    r = _helper_bounds(xs, 2, None)
+    return r
+
+def constant_comparisons(a):
+    out = []
+    if None is None:
+        out.append(a + 1)
+    if 2 < 1:
+        out.append("never")
+    if "x" == "x":
+        out.append("x")
+    return out if 3 >= 3 else None
+
+def dead_twice_bound(a):
+    if a > 0:
+        w = 1
+    else:
+        w = 2
+    return a
+
 def alias_source_rebound_later(a):
     c = a
     d = c
@@ -536,6 +569,7 @@ ARGS = {
     "comparison_orientation": [(5, 1), (1, 2), (1, 0)], "uses_expression_helper": [(3,)], "uses_chain_helper": [(-5,), (5,), (50,)],
     "uses_procedure_helper": [([1, 2, 3], 2), ([1, 2, 3], 9), ([], 1)], "uses_generator_helper": [([1, 2, 3, 4, 5],), ([],)],
     "uses_with_helper": [(_Lock(), 1, 2), (_Lock(), 1, -1)], "uses_helper_twice": [(7, -1), (2, 3)],
+    "uses_flag_helper_default": [([1, 2],)], "uses_flag_helper_none": [([1],)], "constant_comparisons": [(4,)], "dead_twice_bound": [(1,), (-1,)],
     "alias_source_rebound_later": [(2,)], "field_read_then_store": [(_P(9),)], "element_read_then_pop": [([1, 2, 3],)],
     "temp_into_comprehension_scope": [(5,)], "temp_into_first_iterable": [(2,)], "literal_loop_with_break_must_stay": [(True, True, []), (False, True, [])],
     "counting_while_else_adjacent": [([1, 2, 3], 2), ([1, 2, 3], 9), ([], 1)], "counting_while_with_continue_must_stay": [([1, -2, 3],)],
